@@ -33,6 +33,7 @@ ALIASES = {
     "abs": "std::fabs",          # math-style abs on reals
     "builtins.abs": "std::abs",  # python builtin abs
     "builtins.pow": "std::pow",  # python builtin pow (2-arg form)
+    "builtins.round": "std::round",  # README documents cmath's round; python resolves the name to the builtin
 }
 
 
@@ -98,6 +99,33 @@ def check(col: Collector, tier: str):
         raise AnalysisError("_type_priority table not found in common/utils.py")
     col.add("C12.R3", "utils._type_priority", "knows:double", "double" in prio,
             f"arithmetic typing table {prio} must know 'double', the type of every math function", um.rel)
+
+    # R7 name resolution: the resolver eval()s the bare name in cpp_functions' module namespace and
+    # prefixes the defining module, so a documented name that is also a python builtin needs a
+    # 'builtins.<name>' row, and no module-level binding may shadow a documented name.
+    import builtins as _b
+    mod_bindings = set()
+    for n in m.tree.body:
+        for t in ast.walk(n) if isinstance(n, (ast.Assign, ast.AnnAssign, ast.Import, ast.ImportFrom, ast.FunctionDef, ast.ClassDef)) else []:
+            if isinstance(t, ast.Name) and isinstance(t.ctx, ast.Store):
+                mod_bindings.add(t.id)
+            elif isinstance(t, ast.alias):
+                mod_bindings.add((t.asname or t.name).split(".")[0])
+        if isinstance(n, (ast.FunctionDef, ast.ClassDef)):
+            mod_bindings.add(n.name)
+    col.floor("C12.R7", 40)
+    for name in documented:
+        if name in mod_bindings:
+            col.add("C12.R7", "find_known_functions.visit_Call", f"resolves:{name}", False,
+                    f"module-level name `{name}` in cpp_functions.py shadows the math function: eval('{name}') no longer yields "
+                    "an unbound name, so the table key is never formed", m.rel)
+        elif hasattr(_b, name):
+            col.add("C12.R7", "find_known_functions.visit_Call", f"resolves:{name}", f"builtins.{name}" in keys,
+                    f"`{name}` is a python builtin: the resolver looks up 'builtins.{name}', which has no table row "
+                    f"(the call is left untranslated and refused later)", m.rel)
+        else:
+            col.add("C12.R7", "find_known_functions.visit_Call", f"resolves:{name}", name in keys,
+                    f"`{name}` resolves to the bare key, which has no row", m.rel)
 
     # R4 kind agreement producer/consumer of cpp_return_type
     check_kinds(col, repo)
@@ -208,6 +236,16 @@ def check_emission(col: Collector, repo: Repo):
                     ok_tpl = True
     col.add("C12.R5", f.short, "renders-name-and-all-args", ok_tpl,
             "C++ expression must be <cpp_name>(<all argument reps joined>)", f.loc)
+    # the result type comes from the table's return type and from nothing else
+    ok_type = False
+    for c in ast.walk(n):
+        if isinstance(c, ast.Call) and call_name(c) == "cpp_value":
+            t = arg(c, 2, "cpp_type")
+            ok_type = t is not None and src(t).replace("ctyp.", "") in (
+                "terminal(cpp_func.cpp_return_type)", "cpp_func.cpp_return_type", "terminal(call_node.func.cpp_return_type)")
+    col.add("C12.R5", f.short, "result-typed-by-table", ok_type,
+            "the value must be typed terminal(<function>.cpp_return_type) unconditionally: a type chosen from the arguments "
+            "(e.g. int for integer arguments) stores pow(n, -1) as 0", f.loc)
     # result is registered on the node
     ok_set = any(isinstance(c, ast.Call) and call_name(c) == "set_rep" for c in ast.walk(n))
     col.add("C12.R5", f.short, "publishes-rep", ok_set, "handler must publish the value with set_rep", f.loc)
